@@ -1022,7 +1022,22 @@ func (e *Engine) verifyFunc(key string) (c *Ctx, err error) {
 			continue
 		}
 		if !c.atHit[label] {
-			c.bindingErrors = append(c.bindingErrors, fmt.Sprintf("at-clause label %q matches no program point of %s", label, key))
+			// reported under the properties the clauses at that label are tagged with (any untagged clause: under all)
+			tagset := map[string]bool{}
+			allTagged := true
+			for _, a := range k.Ats[label] {
+				if len(a.Tags) == 0 && a.Kind != "ghost" && a.Kind != "assume-shared" {
+					allTagged = false
+				}
+				for _, t := range a.Tags {
+					tagset[t] = true
+				}
+			}
+			prefix := ""
+			if allTagged && len(tagset) > 0 {
+				prefix = "[" + strings.Join(sortedKeys(tagset), ",") + "] "
+			}
+			c.bindingErrors = append(c.bindingErrors, prefix+fmt.Sprintf("at-clause label %q matches no program point of %s", label, key))
 		}
 	}
 	for _, so := range k.SpawnOnly {
